@@ -163,7 +163,9 @@ CLAIMED["C10"] = {
             "fragments and groups of the whole drawing are, as multisets, those of the low side plus those of the high side "
             "(absolute coordinates, so each part is in its place). Proved through a generic locality theorem of the greedy "
             "merge loop (restriction to a class commutes with merge_recursive, via iterated-pass fixpoint uniqueness), its "
-            "instance for spans (no merge across the gap), and the span-by-span structure of all later stages. End-to-end "
+            "instance for spans (no merge across the gap), and the span-by-span structure of all later stages. Corollary "
+            "juxtaposition_is_union (with C06's whole-pipeline translation theorem): A next to B moved by (k, n) gives the "
+            "fragments of A plus the fragments of B moved by (k, n). End-to-end "
             "byte correspondence on juxtaposed diagrams; the union oracle (elements of svg(A+B) = svg(A) + shifted svg(B), "
             "canvas covers both) runs on the implementation.",
     "note": "Trusted: Lean kernel; correspondence; the containment forest (document order, tags) is outside the theorem "
